@@ -25,6 +25,12 @@ ResSame(c, rm, rs) == /\ rm.o # "panic" /\ rs.o # "panic"
 \* PAIRMODE=ref (C11's permission grid): each backend is held to the reference; a difference between the two that the reference
 \* leaves open (partial results of a failing multi-entry call) is C02's business, not an alarm here
 RefOnly == "PAIRMODE" \in DOMAIN IOEnv /\ IOEnv.PAIRMODE = "ref"
+\* owners are not compared between the backends (different defaults); for chown each side's owners are held to the reference:
+\* after a successful call every entry has the owner the reference gives it (AnyId = not settled)
+OwnersOK(pre, c, r, post, own) == r.o # "ok" \/
+   LET ex == Expected(pre, c, own).st.fs IN
+   \A p \in DOMAIN ex \cap DOMAIN post.fs : /\ (ex[p].uid = AnyId \/ ex[p].uid = post.fs[p].uid)
+                                             /\ (ex[p].gid = AnyId \/ ex[p].gid = post.fs[p].gid)
 Blame(okM, okS) == IF okM /\ okS THEN "reference-leaves-it-open" ELSE IF okM THEN "std-deviates" ELSE IF okS THEN "mem-deviates" ELSE "both-deviate"
 
 JudgePair(preM, preS, s, own) ==
@@ -39,7 +45,12 @@ JudgePair(preM, preS, s, own) ==
                  postS == IF s.std.same = "t" THEN preS ELSE AbsOf(s.std.post)
                  rs == ResSame(c, s.mem.r, s.std.r)
                  ts == TreeSame(postM, postS)
-             IN IF rs /\ ts THEN << <<"ok", c.op, IF postS # preS \/ s.std.r.o # "ok" THEN "nt" ELSE "tr">> >>
+                 ownM == OwnersOK(preM, c, s.mem.r, postM, MemOwn)
+                 ownS == OwnersOK(preS, c, s.std.r, postS, own)
+             IN IF RefOnly /\ c.op \in {"chown", "chown_b"} /\ (~ownM \/ ~ownS) THEN
+                   << <<"BAD", "pair", c.op, ArgClass(preS, ResolveA(preS, c)), "-", "-", "mem:" \o s.mem.r.o, "std:" \o s.std.r.o, "owners",
+                        IF ownM THEN "std-deviates" ELSE IF ownS THEN "mem-deviates" ELSE "both-deviate">> >>
+                ELSE IF rs /\ ts THEN << <<"ok", c.op, IF postS # preS \/ s.std.r.o # "ok" \/ c.op \in {"chown", "chown_b"} THEN "nt" ELSE "tr">> >>
                 ELSE LET jm == JudgeStepO(preM, [c |-> c, r |-> s.mem.r, same |-> s.mem.same, post |-> s.mem.post], MemOwn)
                          js == JudgeStepO(preS, [c |-> c, r |-> s.std.r, same |-> s.std.same, post |-> s.std.post], own)
                      IN IF RefOnly /\ jm[1][1] # "BAD" /\ js[1][1] # "BAD" THEN << <<"unsettled", "pair", c.op, "both backends within the reference, different from each other">> >>
